@@ -3,6 +3,7 @@ import VelaVerif.Model.TfliteReader
 import VelaVerif.Spec.TfliteFile
 import VelaVerif.Lemmas.TfliteWriter
 import VelaVerif.Lemmas.TfliteReader
+import VelaVerif.Model.TfliteDemo
 /-!
 # C11 / C14 — the TFLite writer and reader (Model/TfliteWriter.lean, Model/TfliteReader.lean)
 
@@ -11,7 +12,7 @@ entity; quantisation fields are copied tensor by tensor; the reader attaches the
 -/
 set_option linter.unusedSimpArgs false
 namespace VelaVerif.Props.C11Writer
-open VelaVerif.Tflite VelaVerif.Tflite.Writer VelaVerif.OpIndices VelaVerif.Gen
+open VelaVerif.Tflite VelaVerif.Tflite.Writer VelaVerif.OpIndices VelaVerif.Gen VelaVerif.Tflite.Demo
 
 /-! ## (b) the file is a function of the graph description alone
 
@@ -481,31 +482,53 @@ theorem written_operand_order (ts : List TensorD) (op : OpD) (p : POp) (h : prep
 the range it attaches is the full range of that type when it is one of uint8 / int8 / int16 / int32 / int64 and nothing
 otherwise; in particular the width the reader uses (`dtype.bits`) is the width of the type -/
 theorem reader_ranges_table :
-    WriterTbl.dtypeMap.all (fun row => Reader.rangeOf row.2.1 row.2.2.1 == (Spec.intType row.2.1).map (fun sb => Spec.fullRange sb.1 sb.2)) = true := by
-  decide +kernel
+    WriterTbl.dtypeMap.all (fun row => Reader.rangeOf row.2.1 row.2.2.1 == (Spec.intType row.2.1).map (fun sb => Spec.fullRange sb.1 sb.2)) = true :=
+  Reader.ranges_table
 
-/-- **reader_ranges.** Whatever the file: a tensor the reader builds carries `quant_min` / `quant_max` exactly when it keeps
-a quantisation and its element type is uint8 / int8 / int16 / int32 / int64, and then they are the full range of that type
-(two's complement for the signed types). -/
+/-- **reader_ranges** (one tensor record). Whatever the file: a tensor `parse_tensor` builds carries `quant_min` / `quant_max`
+exactly when it keeps a quantisation and its element type is uint8 / int8 / int16 / int32 / int64, and then they are the full
+range of that type (two's complement for the signed types). -/
 theorem reader_ranges (bufs : List (Option Data)) (t : TensorT) (td : TensorD) (h : Reader.parseTensor bufs t = .ok td) :
-    td.range = if td.quant.isSome then (Spec.intType td.dtype).map (fun sb => Spec.fullRange sb.1 sb.2) else none := by
-  unfold Reader.parseTensor at h
-  obtain ⟨row, hrow, h⟩ := Writer.bind_ok h
-  obtain ⟨buf, hbuf, h⟩ := Writer.bind_ok h
-  obtain ⟨_, _, h⟩ := Writer.bind_ok h
-  simp only [pure, Except.pure, Except.ok.injEq] at h
-  subst h
-  dsimp only
-  have hmem : row ∈ WriterTbl.dtypeMap := by
-    unfold Reader.dtypeRow at hrow
-    cases hf : WriterTbl.dtypeMap.find? (·.1 == t.type) with
-    | none => simp [hf, throw, throwThe, MonadExceptOf.throw] at hrow
-    | some r =>
-      simp [hf, pure, Except.pure] at hrow
-      subst hrow
-      exact List.mem_of_find?_eq_some hf
-  have := List.all_eq_true.mp reader_ranges_table row hmem
-  simp only [beq_iff_eq] at this
-  rw [this]
+    td.range = if td.quant.isSome then (Spec.intType td.dtype).map (fun sb => Spec.fullRange sb.1 sb.2) else none :=
+  Reader.parseTensor_range bufs t td h
 
+/-- **reader_ranges** (the whole graph). Every tensor of the graph the reader builds from any file — the file's tensors, the
+reshaped clones of constant weights and biases, the virtual outputs — carries the full range of its element type or none
+(seeded change C19-r4m1 narrowed int16 to ±32767). -/
+theorem reader_ranges_all (version : Bytes) (t : ModelT) (d : Desc) (h : Reader.read version t = .ok d) :
+    ∀ td ∈ d.tensors, td.range = if td.quant.isSome then (Spec.intType td.dtype).map (fun sb => Spec.fullRange sb.1 sb.2) else none :=
+  Reader.read_range version t d h
+
+/-- the ranges themselves, for the record -/
+example : Spec.fullRange true 16 = (-32768, 32767) ∧ Spec.fullRange true 8 = (-128, 127) ∧ Spec.fullRange false 8 = (0, 255) ∧
+    Spec.fullRange true 32 = (-2147483648, 2147483647) := by decide
+
+/-! ## non-vacuity: a concrete graph in the writer's domain (Model/TfliteDemo.lean) -/
+
+/-- the tensors come out sorted by name; the arena tensors and the scratch tensor share buffer 0, the unused input and the
+constant get buffers of their own; the clone `w_reshape` is not written, the original `w` is -/
+example : (write demo).toOption.map (fun m => m.subgraphs.map fun s => s.tensors.map fun t => (t.name, t.buffer)) =
+    some [[(some (bytes "a_scratch"), 0), (some (bytes "unused"), 1), (some (bytes "v"), 0), (some (bytes "w"), 2), (some (bytes "x"), 0),
+           (some (bytes "y"), 0), (some (bytes "z"), 0)]] := by decide +kernel
+
+/-- operator codes sorted by (type, custom code, version); the convolution reads `x`, the original weights `w` and no bias; the
+two custom operators point to their own versions -/
+example : (write demo).toOption.map (fun m => m.opcodes.map fun c => (c.builtin, c.custom, c.version)) =
+    some [(3, none, 3), (32, some (bytes "Foo"), 1), (32, some (bytes "Foo"), 2)] := by decide +kernel
+example : (write demo).toOption.map (fun m => m.subgraphs.map fun s => s.operators.map fun o => (o.opcodeIndex, o.inputs)) =
+    some [[(0, some [4, 3, -1]), (2, some [5, 0]), (1, some [6, 0])]] := by decide +kernel
+example : (write demo).toOption.map (fun m => m.subgraphs.map fun s => s.operators.map fun o => o.outputs) =
+    some [[some [5], some [6], some [2]]] := by decide +kernel
+
+/-- interface: both original inputs (the unused one too), the repeated output entry; metadata: version and offline plan -/
+example : (write demo).toOption.map (fun m => (m.subgraphs.map fun s => (s.inputs, s.outputs), m.metadata.map (·.buffer), m.buffers.length)) =
+    some ([(some [4, 1], some [2, 2])], [3, 4], 5) := by decide +kernel
+
+/-- an instance of `write_deterministic`: the set of operator codes iterated backwards -/
+example : (codesOf demo).toOption.map (fun e => writeWith demo e.reverse == write demo) = some true := by decide +kernel
+
+/-- the reader accepts the written file, and every tensor it builds has the full range of its type -/
+example : ((write demo).toOption.bind fun m => (Reader.read demo.version m).toOption).map
+    (fun d => d.tensors.map (·.range)) =
+    some [none, none, none, some (-128, 127), some (-128, 127), some (-128, 127), none, some (-128, 127)] := by decide +kernel
 end VelaVerif.Props.C11Writer
